@@ -4,15 +4,18 @@ import Mathlib.Tactic.NormNum
 /-!
 # C39 — converting GAS amounts between precisions never creates value or wraps
 
-Theorems are for every `Int` amount and every precision 0..18.
+Theorems are for every `Int` amount — of either sign — and every precision 0..18.
 -/
 namespace NeoFS.Precision
 
 theorem factor_pos (p : Nat) : 0 < factor p := by
   unfold factor; exact Int.pow_pos (by decide)
 
-/-- Main-net precision → balance precision → back never yields more than the original amount. -/
-theorem roundtrip_le (p : Nat) (n : Int) (hn : 0 ≤ n) : toFixed8Z p (toBalanceZ p n) ≤ n := by
+/-- Main-net precision → balance precision → back never yields more than the original amount — for EVERY
+integer amount, negative ones included: `big.Int.Div` is the Euclidean division, which for the positive
+factor rounds towards minus infinity, so `(n / f) * f ≤ n` whatever the sign of `n` (Go's truncating `/`
+would round a negative non-multiple UP and give more). -/
+theorem roundtrip_le (p : Nat) (n : Int) : toFixed8Z p (toBalanceZ p n) ≤ n := by
   have hf := factor_pos p
   unfold toFixed8Z toBalanceZ convert
   by_cases h1 : p < 8
@@ -76,6 +79,124 @@ theorem no_wrap_upto_11 (p : Nat) (hp : 8 ≤ p) (hp2 : p ≤ 11) (n : Int) (hn 
     unfold factor
     interval_cases p <;> simp <;> omega
   exact (no_wrap_partial p n hn (by omega) this).1
+
+/-! ### The int64 level: every amount the API accepts, negative ones included -/
+
+/-- `x` is an int64 -/
+def inInt64 (x : Int) : Prop := -9223372036854775808 ≤ x ∧ x < 9223372036854775808
+
+/-- The down-conversion of an int64 is an int64 for either sign (`n ≤ n / f ≤ 0` or `0 ≤ n / f ≤ n`). -/
+theorem ediv_factor_bounds (p : Nat) (n : Int) : (n ≤ n / factor p ∧ n / factor p ≤ 0) ∨ (0 ≤ n / factor p ∧ n / factor p ≤ n) := by
+  have hf := factor_pos p
+  by_cases hn : 0 ≤ n
+  · right
+    exact ⟨Int.ediv_nonneg hn (Int.le_of_lt hf), Int.ediv_le_self _ hn⟩
+  · left
+    have hneg : n < 0 := by omega
+    have h1 : n / factor p < 0 := Int.ediv_neg_of_neg_of_pos hneg hf
+    have h4 : n < (n / factor p + 1) * factor p := Int.lt_ediv_add_one_mul_self n hf
+    have h5 : (n / factor p + 1) * factor p ≤ (n / factor p + 1) * 1 :=
+      Int.mul_le_mul_of_nonpos_left (by omega) (by omega)
+    rw [Int.mul_one] at h5
+    omega
+
+/-- As the Go methods compute it (int64 in, int64 out): the round trip of ANY int64 amount, of either sign,
+never yields more than the original, as long as neither of the two conversions wraps. -/
+theorem roundtrip_le_int64 (p : Nat) (n : Int) (h1 : inInt64 (toBalanceZ p n))
+    (h2 : -9223372036854775808 ≤ toFixed8Z p (toBalanceZ p n)) (hn : n < 9223372036854775808) :
+    toFixed8 p (toBalance p n) ≤ n := by
+  have hle := roundtrip_le p n
+  have e1 : toBalance p n = toBalanceZ p n := wrap64_id _ h1.1 h1.2
+  unfold toFixed8
+  rw [e1, wrap64_id _ h2 (by omega)]
+  exact hle
+
+theorem factor_le_of_lt8 (p : Nat) (hp : p < 8) : factor p ≤ 100000000 := by
+  unfold factor
+  interval_cases p <;> simp
+
+/-- The exact region where the CURRENT code yields more than the original for a coarser balance precision
+(`p < 8`): exactly the int64 amounts whose multiple of the factor below them lies below MinInt64 (fewer
+than `factor` amounts next to MinInt64) — there the multiplication of the way back wraps to a positive
+number.  Everywhere else, for either sign, the result is at most the original. -/
+theorem roundtrip_more_iff (p : Nat) (hp : p < 8) (n : Int) (hn : inInt64 n) :
+    n < toFixed8 p (toBalance p n) ↔ n / factor p * factor p < -9223372036854775808 := by
+  have hf := factor_pos p
+  have hfl := factor_le_of_lt8 p hp
+  have hb := ediv_factor_bounds p n
+  obtain ⟨hn1, hn2⟩ := hn
+  have hm1 : n / factor p * factor p ≤ n := Int.ediv_mul_le n (Int.ne_of_gt hf)
+  have hm2 : n < n / factor p * factor p + factor p := Int.lt_ediv_add_one_mul_self n hf |> fun h => by
+    have : (n / factor p + 1) * factor p = n / factor p * factor p + factor p := by
+      rw [Int.add_mul, Int.one_mul]
+    omega
+  have h8 : ¬ 8 < p := by omega
+  have e1 : toBalance p n = n / factor p := by
+    unfold toBalance toBalanceZ convert
+    simp only [hp, decide_true, if_true]
+    apply wrap64_id <;> omega
+  have e2 : toFixed8 p (n / factor p) = wrap64 (n / factor p * factor p) := by
+    unfold toFixed8 toFixed8Z convert
+    simp only [h8, decide_false, Bool.false_eq_true, if_false]
+  rw [e1, e2]
+  generalize n / factor p * factor p = m at *
+  unfold wrap64
+  constructor <;> intro h <;> omega
+
+/-- The statement for all int64 amounts without the no-wrap hypothesis of the way back … -/
+def C39_roundtrip_full : Prop :=
+  ∀ p : Nat, p ≤ 18 → ∀ n : Int, inInt64 n → inInt64 (toBalanceZ p n) → toFixed8 p (toBalance p n) ≤ n
+
+/-- … is false for the current code: precision 6, MinInt64 comes back as 9223372036854775716. -/
+theorem C39_roundtrip_counterexample : ¬ C39_roundtrip_full := by
+  intro h
+  have := h 6 (by decide) (-9223372036854775808) (by unfold inInt64; decide) (by unfold inInt64; decide)
+  revert this
+  decide
+
+example : toFixed8 6 (toBalance 6 (-9223372036854775808)) = 9223372036854775716 := by decide
+example : toFixed8 6 (toBalance 6 (-150)) = -200 := by decide   -- Euclidean: rounds down, never more
+example : toBalance 6 (-150) = -2 := by decide
+example : toFixed8 12 (-1) = -1 := by decide
+example : -9223372036854775808 / factor 6 * factor 6 < -9223372036854775808 := by decide
+
+/-- No wrap for negative amounts either: as long as the magnitude of amount × factor fits int64. -/
+theorem no_wrap_partial_neg (p : Nat) (n : Int) (hn : n ≤ 0) (hn2 : -9223372036854775808 ≤ n)
+    (hfit : -9223372036854775808 ≤ n * factor p) :
+    toBalance p n = toBalanceZ p n ∧ toFixed8 p n = toFixed8Z p n := by
+  have hf := factor_pos p
+  have hb := ediv_factor_bounds p n
+  have hmul : n * factor p ≤ 0 := Int.mul_nonpos_of_nonpos_of_nonneg hn (Int.le_of_lt hf)
+  unfold toBalance toFixed8 toBalanceZ toFixed8Z convert
+  constructor
+  · split <;> apply wrap64_id <;> omega
+  · split <;> apply wrap64_id <;> omega
+
+/-! ### Conversions overlapping in time (copies of one converter in two processors' worker pools) -/
+
+/-- Whatever the order in which the workers complete their requests (any schedule: any order, any
+repetition, indices out of range ignored), every completed request has the result of the sequential run. -/
+theorem concurrent_eq_sequential (p : Nat) (tasks : List Task) (sched : List Nat) :
+    ∀ x ∈ runSched p tasks sched, (runSeq p tasks)[x.1]? = some x.2 := by
+  intro x hx
+  unfold runSched at hx
+  simp only [List.mem_filterMap] at hx
+  obtain ⟨i, _, hi⟩ := hx
+  cases ht : tasks[i]? with
+  | none => simp [ht] at hi
+  | some t =>
+    simp only [ht, Option.map_some, Option.some.injEq] at hi
+    subst hi
+    simp [runSeq, List.getElem?_map, ht]
+
+/-- … and every request that is scheduled completes with it. -/
+theorem concurrent_complete (p : Nat) (tasks : List Task) (sched : List Nat) (i : Nat) (t : Task)
+    (hi : tasks[i]? = some t) (hs : i ∈ sched) : (i, eval p t) ∈ runSched p tasks sched := by
+  unfold runSched
+  simp only [List.mem_filterMap]
+  exact ⟨i, hs, by simp [hi]⟩
+
+example : runSched 12 [⟨true, 1⟩, ⟨false, -10001⟩] [1, 0, 1, 0, 7] = [(1, -2), (0, 10000), (1, -2), (0, 10000)] := by decide
 
 example : toBalance 12 9007199254740991 = -2161727821137848080 := by decide
 
